@@ -1567,6 +1567,43 @@ func (c *Ctx) credentialNonEmpty() {
 				return
 			}
 			cell, _ := v.(*ssa.Alloc)
+			// the secret is a result of a Helios helper that reads the option
+			// (`apiKey, err := apiKeyFromConfig(name, cfg); if err != nil { return nil, err }`): the helper
+			// must refuse the empty value on every successful return, and the factory must return
+			// successfully only where the helper's error was found nil
+			{
+				var ex *ssa.Extract
+				if e, isEx := v.(*ssa.Extract); isEx {
+					ex = e
+				} else if cell != nil && cell.Referrers() != nil {
+					stores := 0
+					for _, r := range *cell.Referrers() {
+						if st, isSt := r.(*ssa.Store); isSt && st.Addr == ssa.Value(cell) {
+							stores++
+							ex, _ = st.Val.(*ssa.Extract)
+						}
+					}
+					if stores != 1 {
+						ex = nil
+					}
+				}
+				if ex != nil {
+					if call, isCall := ex.Tuple.(*ssa.Call); isCall {
+						if g := call.Call.StaticCallee(); g != nil && g.Blocks != nil && p.IsHelios(g) {
+							why := helperRefusesEmpty(g, ex.Index)
+							if why == "" {
+								why = successOnlyWhereErrNil(owner, call)
+							}
+							if why == "" {
+								c.Pass("credential-nonempty", construct, p.InstrPos(ifi), "the compared secret is the result of "+p.FuncKey(g)+", which refuses the empty value, and the factory succeeds only where that helper did")
+							} else {
+								c.Fail("credential-nonempty", construct, p.InstrPos(ifi), "the secret compared with the request header comes from "+p.FuncKey(g)+": "+why+": an empty secret admits every request that lacks the header")
+							}
+							return
+						}
+					}
+				}
+			}
 			isSecret := func(x ssa.Value) bool {
 				x = stripConv(x)
 				if cell == nil {
@@ -1864,4 +1901,115 @@ func (c *Ctx) suppliedIDLeavesRequestAlone() {
 			}
 			return ""
 		})
+}
+
+// helperRefusesEmpty: on every return of g whose last result is a nil error, result idx is a value
+// found different from "" on an edge that dominates the return.  "" when that holds, a reason otherwise.
+func helperRefusesEmpty(g *ssa.Function, idx int) string {
+	n := 0
+	for _, b := range g.Blocks {
+		for _, in := range b.Instrs {
+			r, isRet := in.(*ssa.Return)
+			if !isRet || len(r.Results) < 2 || idx >= len(r.Results) || !isConstNil(r.Results[len(r.Results)-1]) {
+				continue
+			}
+			n++
+			rv := stripConv(r.Results[idx])
+			if s, isStr := constStr(rv); isStr {
+				if s == "" {
+					return "it returns the empty string with a nil error"
+				}
+				continue
+			}
+			ok := false
+			for _, b2 := range g.Blocks {
+				oif, isIf := b2.Instrs[len(b2.Instrs)-1].(*ssa.If)
+				if !isIf {
+					continue
+				}
+				ob, isBin := oif.Cond.(*ssa.BinOp)
+				if !isBin || (ob.Op != token.EQL && ob.Op != token.NEQ) {
+					continue
+				}
+				var other ssa.Value
+				if stripConv(ob.X) == rv {
+					other = ob.Y
+				} else if stripConv(ob.Y) == rv {
+					other = ob.X
+				} else {
+					continue
+				}
+				if s, isStr := constStr(other); !isStr || s != "" {
+					continue
+				}
+				nonEmpty := b2.Succs[1]
+				if ob.Op == token.NEQ {
+					nonEmpty = b2.Succs[0]
+				}
+				if len(nonEmpty.Preds) == 1 && nonEmpty.Dominates(r.Block()) {
+					ok = true
+				}
+			}
+			if !ok {
+				return "a successful return of it hands out a value it did not find non-empty"
+			}
+		}
+	}
+	if n == 0 {
+		return "it has no successful return the rule can see"
+	}
+	return ""
+}
+
+// successOnlyWhereErrNil: every return of the factory with a nil error is dominated by the edge on
+// which the error result of `call` was found nil.
+func successOnlyWhereErrNil(owner *ssa.Function, call *ssa.Call) string {
+	var okBlocks []*ssa.BasicBlock
+	for _, b := range owner.Blocks {
+		oif, isIf := b.Instrs[len(b.Instrs)-1].(*ssa.If)
+		if !isIf {
+			continue
+		}
+		ob, isBin := oif.Cond.(*ssa.BinOp)
+		if !isBin || (ob.Op != token.EQL && ob.Op != token.NEQ) {
+			continue
+		}
+		var e ssa.Value
+		if isConstNil(ob.Y) {
+			e = ob.X
+		} else if isConstNil(ob.X) {
+			e = ob.Y
+		} else {
+			continue
+		}
+		ex, isEx := stripConv(e).(*ssa.Extract)
+		if !isEx || ex.Tuple != ssa.Value(call) || ex.Index != call.Call.Signature().Results().Len()-1 {
+			continue
+		}
+		nilEdge := b.Succs[0]
+		if ob.Op == token.NEQ {
+			nilEdge = b.Succs[1]
+		}
+		if len(nilEdge.Preds) == 1 {
+			okBlocks = append(okBlocks, nilEdge)
+		}
+	}
+	for _, b := range owner.Blocks {
+		for _, in := range b.Instrs {
+			r, isRet := in.(*ssa.Return)
+			if !isRet || len(r.Results) != 2 || !isConstNil(r.Results[1]) {
+				continue
+			}
+			dom := false
+			for _, ok := range okBlocks {
+				if ok.Dominates(r.Block()) {
+					dom = true
+				}
+			}
+			if !dom {
+				return "the factory returns successfully on a path where that helper's error was not found nil"
+			}
+		}
+	}
+	return ""
 }
